@@ -35,6 +35,8 @@ namespace
     {
         const Exec&           x;
         ISubject*             cur = nullptr;
+        ISubject*             sib = nullptr; // sibling allocator of the same kind (foreign pointers, C08)
+        std::vector<Handle>   sib_live;
         std::vector<ISubject*> zombies;
         std::vector<Handle>   live;
         std::vector<Mark>     marks;
@@ -236,6 +238,66 @@ namespace
             return out + "]";
         }
 
+        void sib_alloc(const Cmd& c)
+        {
+            if (!sib)
+                return;
+            std::size_t sz = static_cast<std::size_t>(c.arg(0));
+            std::size_t al = static_cast<std::size_t>(c.arg(1, 1));
+            void*       p  = nullptr;
+            std::string r  = classify([&] { p = sib->an(sz, al); });
+            long blk = -1, off = 0;
+            int  id = 0;
+            if (p)
+            {
+                world().project(p, blk, off);
+                id = ++next_id;
+                if (blk >= 0)
+                {
+                    pat_fill(p, sz, id);
+                    sib_live.push_back(Handle{id, p, false, 1, sz, al, sz, gen});
+                }
+            }
+            Ev("salloc").i("o", sib->o).i("id", id).s("r", r).u("sz", sz).u("al", al).i("b", blk).i("off", off).u(
+                "len", sz);
+        }
+
+        // foreign memory taken directly from the world: in carve mode it starts exactly one past the
+        // end of the block handed out last
+        void raw_foreign(const Cmd& c)
+        {
+            std::size_t sz = static_cast<std::size_t>(c.arg(0, 8));
+            std::size_t gap;
+            char*       p   = world().take(sz, 1, gap);
+            int         blk = world().add_block(p, sz, 1, 999, true, gap);
+            world().blocks[static_cast<std::size_t>(blk)].guarded = false;
+            Ev("ua").i("s", 999).i("b", blk).u("sz", sz).u("al", 1).u("mis", 0).u("gap", gap).b("st", true);
+            int id = ++next_id;
+            pat_fill(p, sz, id);
+            sib_live.push_back(Handle{id, p, false, 1, sz, 1, sz, -1});
+            Ev("salloc").i("o", -1).i("id", id).s("r", "ok").u("sz", sz).u("al", 1).i("b", blk).i("off", 0).u("len", sz);
+        }
+
+        // offer a pointer the subject does not own to its composable deallocation
+        void try_dealloc_foreign(const Cmd& c)
+        {
+            if (sib_live.empty())
+                return;
+            Handle      h  = c.arg(0) < 0 ? sib_live.back() : sib_live[static_cast<std::size_t>(c.arg(0)) % sib_live.size()];
+            Scal        s0 = cur->scal(h.sz);
+            bool        res = false;
+            std::string r   = classify([&] { res = cur->tdn(h.p, h.sz, h.al); });
+            if (r == "ok")
+                r = res ? "true" : "false";
+            Scal s1 = cur->scal(h.sz);
+            long first;
+            std::size_t bad = pat_check(h.p, h.bytes, h.id, &first);
+            long blk = -1, off = 0;
+            world().project(h.p, blk, off);
+            Ev("tdx").i("o", cur->o).i("so", sib ? sib->o : -1).i("id", h.id).s("r", r).i("b", blk).i("off", off).i(
+                "cap0", s0.cap).i("cap1", s1.cap).i("fn0", s0.fn).i("fn1", s1.fn).u("bad", bad);
+        }
+
         void sweep()
         {
             std::size_t nbad, ncheck;
@@ -249,6 +311,13 @@ namespace
                     continue;
                 gd += count_not(b.base - b.gap, b.gap, World::guard_byte);
                 gd += count_not(b.base + b.size, b.tail, World::guard_byte);
+            }
+            for (auto& h : sib_live)
+            {
+                long first;
+                ++ncheck;
+                if (pat_check(h.p, h.bytes, h.id, &first))
+                    ++nbad;
             }
             Ev("sweep").i("o", cur ? cur->o : -1).u("checked", ncheck).u("nbad", nbad).raw("bad", bl).u(
                 "gd", gd);
@@ -399,6 +468,8 @@ namespace
         {
             world().fail_in = static_cast<long>(x.num("failat", 0));
             cur = create(x.str("place", "hi") == "hi");
+            if (cur && x.num("sib"))
+                sib = create(x.str("place", "hi") != "hi");
             if (cur)
             {
                 for (auto& c : x.cmds)
@@ -438,6 +509,12 @@ namespace
                         kill_zombies();
                     else if (op == "sweep")
                         sweep();
+                    else if (op == "san")
+                        sib_alloc(c);
+                    else if (op == "tdx")
+                        try_dealloc_foreign(c);
+                    else if (op == "sraw")
+                        raw_foreign(c);
                     else if (op == "fail")
                         world().fail_in = static_cast<long>(c.arg(0));
                     else if (op == "nofail")
@@ -459,6 +536,17 @@ namespace
                         dealloc(c, false, false);
                     }
                 }
+                while (!sib_live.empty())
+                {
+                    Handle h = sib_live.back();
+                    sib_live.pop_back();
+                    std::string r = "ok";
+                    if (h.gen >= 0 && sib)
+                        r = classify([&] { sib->dn(h.p, h.sz, h.al); });
+                    Ev("sfree").i("o", sib ? sib->o : -1).i("id", h.id).s("r", r);
+                }
+                if (sib)
+                    destroy(sib, false);
                 destroy(cur, false);
                 kill_zombies();
             }
